@@ -16,10 +16,9 @@ LEVEL_TEXT = ("Lean theorem split_correct: for EVERY derivation of the dialect g
               "run_qbody, run_value, run_afterFields, run_block); no_failed_block and count_blocks as corollaries. Model tied to "
               "splitter.py by differential execution on grammar-derived and bounded-exhaustive inputs.")
 LEVEL_NOTE = ("Trusted: Lean kernel + 3 standard axioms; the hand-written model Lex/Split.lean and the grammar definitions "
-              "Grammar.lean (the specification side); the correspondence run; CPython re semantics. The theorem is at token "
-              "level plus the character-level corollary under `lex s = toks d`; that every canonical derivation re-lexes to "
-              "itself is exercised by the generator (each generated document is lexed by the model) and proved in C05's file "
-              "when available. Duplicate entry/@string keys are C09's business and excluded by the generator here.")
+              "Grammar.lean (the specification side); the correspondence run; CPython re semantics. Token level "
+              "(split_correct) and text level (split_correct_text via the re-lexing lemma relex; lex_is_canonical for the "
+              "converse). Duplicate entry/@string keys are C09's business and excluded by the generator here.")
 TECHNIQUE = "Lean 4 proof by induction over grammar derivations; differential correspondence on grammar-derived documents"
 RULE = ("corpus; seeded random derivations of G built as ASTs with constructive ground truth over an adversarial terminal "
         "alphabet (quote inside braces inside quotes, = , @ inside nested braces, escaped delimiters, '#', CRLF, blocks "
@@ -28,7 +27,15 @@ RULE = ("corpus; seeded random derivations of G built as ASTs with constructive 
         "Non-trivial = at least one non-comment block.")
 EXHAUSTIVE = {"quick": False, "thorough": False}
 ASSUMPTIONS = ["entry/@string keys pairwise distinct within a generated document (duplicates are C09)"]
-PARTIAL = ["character level is stated under the hypothesis `lex P s = d.toks` (re-lexing lemma: see C05)"]
+PARTIAL = []
+
+
+def extra_obligations(tier):
+    """WordOK2: regex \\w matches neither '{' nor a blank (used by the re-lexing lemma)"""
+    import re
+    w = re.compile(r"\w")
+    bad = [c for c in "{ \t" if w.match(c)]
+    return [("WordOK2: \\w matches neither '{' nor blank/tab", not bad, "offending: %r" % bad)]
 
 
 def corpus():
